@@ -1177,8 +1177,60 @@ type rangeState struct {
 	x *ssa.Range
 }
 
+// visitedKey: name of the ghost "keys already yielded" set of a map range.
+func visitedKey(x *ssa.Range) string { return "visited#" + x.Name() }
+
 func (g *FuncGen) rangeInit(x *ssa.Range) {
 	g.set(x, Val{T: "0", S: SInt})
+	if m, ok := types.Unalias(x.X.Type()).Underlying().(*types.Map); ok {
+		ks := g.c.sortOf(m.Key())
+		srt := fmt.Sprintf("(Array %s Bool)", ks)
+		if g.localGhostSorts == nil {
+			g.localGhostSorts = map[string]Sort{}
+		}
+		g.localGhostSorts[visitedKey(x)] = srt
+		g.cur.ghost[visitedKey(x)] = fmt.Sprintf("((as const %s) false)", srt)
+	}
+}
+
+// loopAddsKeys: does the loop that iterates rng contain an insertion into a map of the same type?
+func (g *FuncGen) loopAddsKeys(rng *ssa.Range, blk *ssa.BasicBlock) bool {
+	li := g.loops[blk]
+	if li == nil {
+		for _, l := range g.loops {
+			if l.blocks[blk] && (li == nil || len(l.blocks) < len(li.blocks)) {
+				li = l
+			}
+		}
+	}
+	if li == nil {
+		return true
+	}
+	for b := range li.blocks {
+		for _, in := range b.Instrs {
+			switch y := in.(type) {
+			case *ssa.MapUpdate:
+				if types.Identical(y.Map.Type(), rng.X.Type()) {
+					return true
+				}
+			case *ssa.Call:
+				if _, isB := y.Call.Value.(*ssa.Builtin); isB {
+					continue
+				}
+				cl, all := g.callWrites(&y.Call)
+				if all {
+					return true
+				}
+				mt := types.Unalias(rng.X.Type()).Underlying().(*types.Map)
+				for _, c := range cl {
+					if c == g.c.mapDomClass(mt) {
+						return true
+					}
+				}
+			}
+		}
+	}
+	return false
 }
 
 func (g *FuncGen) next(x *ssa.Next) {
@@ -1194,10 +1246,33 @@ func (g *FuncGen) next(x *ssa.Next) {
 	vs := c.sortOf(m.Elem())
 	v := c.fresh(x.Name()+"_v", vs)
 	dom := g.mapDom(g.cur, m, mv.T)
-	c.assert(implies(ok, and(not(eq(mv.T, "0")), fmt.Sprintf("(select %s %s)", dom, k.T), eq(v, fmt.Sprintf("(select %s %s)", g.mapVals(g.cur, m, mv.T), k.T)))))
+	vk := visitedKey(rng)
+	vis, haveVis := g.cur.ghost[vk]
+	guard := g.bcond[g.curBlock]
+	yielded := and(not(eq(mv.T, "0")), fmt.Sprintf("(select %s %s)", dom, k.T), eq(v, fmt.Sprintf("(select %s %s)", g.mapVals(g.cur, m, mv.T), k.T)))
+	if haveVis {
+		// each key is yielded at most once
+		yielded = and(yielded, not(fmt.Sprintf("(select %s %s)", vis, k.T)))
+	}
+	c.assert(implies(and(guard, ok), yielded))
+	if haveVis {
+		ks := c.sortOf(m.Key())
+		nv := c.fresh("visited", fmt.Sprintf("(Array %s Bool)", ks))
+		c.assert(eq(nv, ite(ok, fmt.Sprintf("(store %s %s true)", vis, k.T), vis)))
+		g.cur.ghost[vk] = nv
+		if !g.loopAddsKeys(rng, x.Block()) {
+			// iteration ends only when every key still present has been yielded (no key is inserted
+			// into a map of this type inside the loop, so Go's "may or may not be produced" case cannot arise)
+			c.useQuant = true
+			c.assert(implies(and(guard, not(ok)), fmt.Sprintf("(forall ((qk %s)) (=> %s (select %s qk)))", ks,
+				and(not(eq(mv.T, "0")), fmt.Sprintf("(select %s qk)", dom)), vis)))
+			c.note("map iteration: every key is yielded at most once, and when the range ends every key present has been yielded (Go spec; holds because the loop inserts no key into a map of that type)")
+		} else {
+			c.note("map iteration with insertions in the loop: completeness of iteration is not assumed")
+		}
+	}
 	vv := Val{T: v, S: vs, GT: m.Elem()}
 	g.assumeWellTyped(vv, m.Elem(), g.cur)
-	c.note("map iteration: each step yields an arbitrary present key; completeness of iteration (every key visited) is not assumed")
 	g.set(x, Val{Tup: []Val{{T: ok, S: SBool, GT: types.Typ[types.Bool]}, k, vv}})
 }
 
